@@ -560,6 +560,10 @@ impl Report {
                 *counters.entry(k.clone()).or_insert(0) += v;
             }
         }
+        if self.level == "translation_validation" {
+            coverage.insert("programs".into(), counters.get("lowered").copied().unwrap_or(evaluations).max(1).into());
+            coverage.insert("disagreements_checked".into(), counters.get("lowered").copied().unwrap_or(evaluations).into());
+        }
         if self.level == "model_checking" {
             let states = counters.get("states").copied().unwrap_or(evaluations).max(1);
             let transitions = counters.get("transitions").copied().unwrap_or(evaluations).max(1);
